@@ -126,6 +126,8 @@ pub struct Trace {
     pub max_tasks: u32,
     /// the scheduler stopped the execution: no progress event for NO_PROGRESS_STEPS steps
     pub livelock: bool,
+    /// longest stretch of scheduling steps without a progress event (granularity 4096)
+    pub max_gap: u64,
 }
 
 impl Trace {
@@ -247,6 +249,13 @@ impl Scheduler for SimScheduler {
         self.step += 1;
         if step % 4096 == 0 {
             let p = ragc_common::verif::with(|w| w.progress_events).unwrap_or(0);
+            {
+                let gap = step - self.last_progress_step;
+                let mut t = self.trace.lock().unwrap();
+                if gap > t.max_gap {
+                    t.max_gap = gap;
+                }
+            }
             if p != self.last_progress {
                 self.last_progress = p;
                 self.last_progress_step = step;
